@@ -433,6 +433,80 @@ func genWire(repo string) (string, error) {
 	}
 	fmt.Fprintf(&b, "Definition gen_codec_src : list (string * string) :=\n  %s.\n\n", coqList(srcs))
 
+	// Where the buffer of a request's byte field comes from on the server
+	// entry: any assignment to a ".bytes" field, or a "bytes:" key of a
+	// composite literal, in startCall / newRequestMessage.  None: the request
+	// object comes without a buffer and decoder.bytes allocates per call
+	// (BufFresh).  A value rooted at the receiver is a buffer of the endpoint
+	// shared by every request decoded on it (BufShared, size from the make()
+	// that initialises the field).
+	{
+		pol := "BufFresh"
+		var presets []string
+		for _, f := range [][2]string{{"endpointServer", "startCall"}, {"", "newRequestMessage"}} {
+			fd := p.funcDecl(f[0], f[1])
+			if fd == nil || fd.Body == nil {
+				pol = "(BufUnknown " + coqStr(f[0]+"."+f[1]+" not found") + ")"
+				continue
+			}
+			rv := recvVar(fd)
+			ast.Inspect(fd.Body, func(nd ast.Node) bool {
+				var rhs ast.Expr
+				switch x := nd.(type) {
+				case *ast.AssignStmt:
+					for i, l := range x.Lhs {
+						if sel, ok := l.(*ast.SelectorExpr); ok && sel.Sel.Name == "bytes" && i < len(x.Rhs) {
+							rhs = x.Rhs[i]
+						}
+					}
+				case *ast.KeyValueExpr:
+					if id, ok := x.Key.(*ast.Ident); ok && id.Name == "bytes" {
+						rhs = x.Value
+					}
+				}
+				if rhs == nil {
+					return true
+				}
+				presets = append(presets, p.src(rhs))
+				sel, ok := rhs.(*ast.SelectorExpr)
+				root, isRecv := "", false
+				if ok {
+					if id, ok := sel.X.(*ast.Ident); ok && rv != "" && id.Name == rv {
+						root, isRecv = sel.Sel.Name, true
+					}
+				}
+				if !isRecv {
+					pol = "(BufUnknown " + coqStr(p.src(rhs)) + ")"
+					return true
+				}
+				// size of the endpoint's buffer: <field>: make([]byte, X) in newEndpointServer
+				size := constant.MakeInt64(0)
+				if ne := p.funcDecl("", "newEndpointServer"); ne != nil && ne.Body != nil {
+					ast.Inspect(ne.Body, func(n2 ast.Node) bool {
+						kv, ok := n2.(*ast.KeyValueExpr)
+						if !ok {
+							return true
+						}
+						if id, ok := kv.Key.(*ast.Ident); !ok || id.Name != root {
+							return true
+						}
+						if call, ok := kv.Value.(*ast.CallExpr); ok && len(call.Args) >= 2 {
+							if f, ok := call.Fun.(*ast.Ident); ok && f.Name == "make" {
+								if v := evalConst(call.Args[1], consts, 0); v != nil {
+									size = v
+								}
+							}
+						}
+						return true
+					})
+				}
+				pol = "(BufShared " + coqN(size) + ")"
+				return true
+			})
+		}
+		fmt.Fprintf(&b, "Definition gen_write_buf : buf_policy := %s.\n", pol)
+		fmt.Fprintf(&b, "Definition gen_request_buffer_presets : list string := %s.\n\n", coqStrListW(presets))
+	}
 	fmt.Fprintf(&b, "Definition gen_alloc_max : N := %s.\n", coqN(consts["decodeAllocMax"]))
 	fmt.Fprintf(&b, "Definition gen_max_read_size : N := %s.\n", coqN(consts["maxReadSize"]))
 	return b.String(), nil
@@ -444,4 +518,12 @@ func lastReturn(body []ast.Stmt) (*ast.ReturnStmt, bool) {
 	}
 	r, ok := body[len(body)-1].(*ast.ReturnStmt)
 	return r, ok
+}
+
+func coqStrListW(ss []string) string {
+	items := make([]string, len(ss))
+	for i, x := range ss {
+		items[i] = coqStr(x)
+	}
+	return "[" + strings.Join(items, "; ") + "]"
 }
